@@ -171,6 +171,16 @@ func (nd *node) setOwner(uid, gid int) {
 	if gid != -1 {
 		nd.gid = gid
 	}
+
+	if nd.mode.IsRegular() {
+		// As chown(2), changing the owner of a regular file clears its set-user-ID bit,
+		// and its set-group-ID bit if the file is group executable.
+		nd.mode &^= fs.ModeSetuid
+
+		if nd.mode&0o010 != 0 {
+			nd.mode &^= fs.ModeSetgid
+		}
+	}
 }
 
 // size returns the size of the file.
